@@ -522,7 +522,7 @@ def obligations(tier):
                 obs.append(Ob(f's_construct_{comp}_{sh}', 'S', ob_s_construct, f'construct_trs sweep {comp} shard {sh}',
                               functions=['TRS.construct_trs', 'TRS.from_twprgesec', 'TRS.trs (setter)', 'TRS.__eq__',
                                          'TRS.__hash__'], weight=8, timeout=3000,
-                              params={'component': comp, 'values': vs, 'cap': 2400}))
+                              params={'component': comp, 'values': vs, 'cap': 2800, 'nfix': 2}))
         else:
             obs.append(Ob(f's_construct_{comp}', 'S', ob_s_construct, f'construct_trs sweep {comp}',
                           functions=['TRS.construct_trs', 'TRS.from_twprgesec', 'TRS.trs (setter)', 'TRS.__eq__',
